@@ -5,8 +5,10 @@ import (
 	"go/types"
 	"golang.org/x/tools/go/ssa"
 	"sort"
+	"strings"
 
 	"utilcheck/flow"
+	"utilcheck/pred"
 )
 
 // parserEntry lists the parser-level entry points per package (functions taking a ParserInput at index 0).
@@ -418,6 +420,57 @@ func ruleTyped(e *Env, ruleName string, pkgs ...string) {
 				continue
 			}
 			e.Flow(func(c *flow.Ctx) { c.RuleTypedErrors(ruleName, f, parseErrorType[pkg]) })
+		}
+	}
+}
+
+// ruleErrWrapper: fn hands its arguments, unchanged and in order, to callee and returns callee's value with a nil
+// error, or the zero value with callee's error wrapped (fmt.Errorf … %w checked by the wrap rule), and nothing else.
+// The rules that decide callee then speak for fn.
+func ruleErrWrapper(e *Env, rule string, fn, callee *ssa.Function, argNames []string, zero string) {
+	if fn == nil || callee == nil {
+		return
+	}
+	site := flow.FnName(fn)
+	cname := callee.Name()
+	sums := map[string]pred.Summary{
+		callee.String(): func(ev *pred.Evaluator, args []pred.Val) (pred.Val, error) {
+			if callee.Pkg != nil { // the recorded parameter order, whatever the present one
+				args = e.Unpermuted(callee.Pkg.Pkg.Name(), cname, callee, args)
+			}
+			return pred.Tuple{pred.Term{Fn: cname + "#0", Args: args}, pred.Term{Fn: cname + "#1", Args: args}}, nil
+		},
+	}
+	mk := func() []pred.Val {
+		var a []pred.Val
+		for _, n := range argNames {
+			a = append(a, pred.Sym{Name: n})
+		}
+		return a
+	}
+	if fn.Pkg != nil {
+		mk = e.Permuted(fn.Pkg.Pkg.Name(), fn.Name(), fn, mk)
+	}
+	leaves, err := extractTree(e.P.SSA, fn, mk, sums, nil, errKeyOf, binDomain)
+	if err != nil {
+		e.S.Unk(rule, site, "wrapper", err.Error(), e.Pos(fn))
+		return
+	}
+	call := "(" + strings.Join(argNames, ",") + ")"
+	for _, lf := range leaves {
+		if lf.Err != nil {
+			e.S.Unk(rule, site, "wrapper", lf.Err.Error(), e.Pos(fn))
+			continue
+		}
+		got := lf.Out.Ret.String()
+		v, asked := lf.Assign["nil? "+cname+"#1"+call]
+		switch {
+		case asked && len(lf.Assign) == 1 && v == 0 && got == "("+cname+"#0"+call+", nil)":
+			e.S.Ok(rule, site, "wrapper ok", "returns the value of "+cname+call+" unchanged with a nil error", e.Pos(fn))
+		case asked && len(lf.Assign) == 1 && v == 1 && strings.HasPrefix(got, "("+zero+", fmt.Errorf(") && strings.Contains(got, cname+"#1"+call):
+			e.S.Ok(rule, site, "wrapper error", "returns the zero value and the error of "+cname+" wrapped", e.Pos(fn))
+		default:
+			e.S.Bad(rule, site, "wrapper {"+lf.String()+"}", "returns "+got+"; documented: the result of "+cname+call+", its error wrapped", e.Pos(fn), "")
 		}
 	}
 }
